@@ -78,16 +78,28 @@ func c04Exec(p *harness.Plan) *harness.Outcome {
 			t.keys = append(t.keys, k)
 			out.Keys = append(out.Keys, keys[k])
 		}
+		tx.Outputs = append(tx.Outputs, out)
 		if rng.Chance(0.2) {
 			t.dup = true
-			out.Keys = append(out.Keys, keys[t.keys[0]])
+			if rng.Chance(0.5) {
+				out.Keys = append(out.Keys, keys[t.keys[0]])
+			} else {
+				// the repeated key sits in a second output
+				tx.Outputs = append(tx.Outputs, &common.Output{Type: common.OutputTypeScript, Amount: common.NewInteger(1), Script: common.NewThresholdScript(1), Mask: mask, Keys: []*crypto.Key{keys[t.keys[rng.IntN(len(t.keys))]]}})
+				tx.Inputs[0].Deposit.Amount = common.NewInteger(2)
+			}
 		}
-		tx.Outputs = append(tx.Outputs, out)
 		signed := &common.SignedTransaction{Transaction: *tx}
 		if err := signed.SignRaw(f.Domain.PrivateSpendKey); err != nil {
 			return c.tool(err)
 		}
-		t.ver = signed.AsVersioned()
+		// what a node holds is always a decoded transaction: every key is its
+		// own object, equal keys are equal by value only
+		dec, err := common.UnmarshalVersionedTransaction(signed.AsVersioned().Marshal())
+		if err != nil {
+			return c.tool(err)
+		}
+		t.ver = dec
 		t.hash = t.ver.PayloadHash()
 		txs = append(txs, t)
 	}
@@ -135,7 +147,7 @@ func c04Exec(p *harness.Plan) *harness.Outcome {
 			fork := op.Kind == "forklockkeys"
 			ok := !conflicts(ti) && !t.dup
 			var lerr error
-			if g := c.guard("lock-panic", func() { lerr = f.Store.LockGhostKeys(t.ver.Outputs[0].Keys, t.hash, fork) }); g != nil {
+			if g := c.guard("lock-panic", func() { lerr = f.Store.LockGhostKeys(allOutputKeys(t.ver), t.hash, fork) }); g != nil {
 				return g
 			}
 			c.logf("c%d %s tx%d keys=%v dup=%v err=%v", op.N, op.Kind, ti, t.keys, t.dup, lerr != nil)
@@ -244,4 +256,12 @@ func init() {
 		QuickRuns:  300, ThoroughRuns: 6000,
 		QuickWall: 40 * time.Second, ThoroughWall: 8 * time.Minute,
 	})
+}
+
+func allOutputKeys(ver *common.VersionedTransaction) []*crypto.Key {
+	var ks []*crypto.Key
+	for _, o := range ver.Outputs {
+		ks = append(ks, o.Keys...)
+	}
+	return ks
 }
